@@ -5,6 +5,7 @@ the real ones; the order glob returns (seam S2) and the git peer (seam S4) are s
 M-discover (independent walk of the model tree) and M-ignore (the stub's ignore set)."""
 import collections
 import copy
+import json
 import os
 
 from .. import core
@@ -21,6 +22,11 @@ C_NAMES = ["main.c", "a.c", "b.c", "util.h", "a.h", "my file.c", "a.b.c", "x.tar
 OTHER_NAMES = ["a.cc", "a.hh", "b.C", "c.H", "d.c.bak", "e.ch", "f.c~", "g.hpp", "c", "h", "Makefile", "README.md", "notes.txt",
                "a.cpp", "x.o", "ac", "a.c.orig", "dotc.", "k.ｃ"]
 DIR_NAMES = ["src", "include", "lib", "sub dir", "v1.2", "d.c", "inc.h", "deep", "x", "objs.o", "a.b", "tests"]
+
+
+def is_special(v):
+    """An entry that exists but is neither a regular file nor a directory (here: a link to a device): never a source."""
+    return isinstance(v, str) and v.startswith("->/dev/")
 
 
 def is_c(name):
@@ -78,7 +84,7 @@ class Model:
                 p = f"{prefix}{k}"
                 if isinstance(v, dict):
                     walk(v, p + "/")
-                elif is_c(k):
+                elif is_c(k) and not is_special(v):
                     out.append((p, v))
         walk(node, (rel + "/") if rel not in ("", ".") else "")
         return out
@@ -103,6 +109,12 @@ def gen_tree(rng, small_files, fatal_files=()):
                         node[nm] = "@" + fatal_files[rng.randrange(len(fatal_files))]
                     else:
                         node[nm] = "@" + small_files[rng.randrange(len(small_files))]
+                    n_entries += 1
+            elif r < 0.48:
+                # named like a source, but not a regular file: a link to a device (what a masked file looks like)
+                nm = ["masked.c", "null.h", "dev.c"][rng.randrange(3)]
+                if nm not in node:
+                    node[nm] = "->/dev/null"
                     n_entries += 1
             elif r < 0.65:
                 nm = OTHER_NAMES[rng.randrange(len(OTHER_NAMES))]
@@ -132,7 +144,7 @@ class C15(Engine):
     prop = "C15"
     name = "cli-sim"
     level = "exploration"
-    expected_kinds = {"listing_perm", "gitignore", "git_rc128", "git_missing", "enoent_toctou", "missing_path", "bad_suffix",
+    expected_kinds = {"device_link_named_like_a_source", "git_located_through_environment", "listing_perm", "gitignore", "git_rc128", "git_missing", "enoent_toctou", "missing_path", "bad_suffix",
                       "dir_arg", "no_arg", "dir_named_like_c", "same_twice"}
     rule_text = ("Per run a seeded model tree (depth <= 4, <= 25 entries; names with spaces, interior dots, look-alike suffixes, empty "
                  "directories, non-C files, directories whose own name ends in .c/.h) is materialised on a real scratch file system and "
@@ -237,6 +249,9 @@ class C15(Engine):
                 r["line"] = k + 1
             op["argv"] = ["--use-gitignore"] + op["argv"]
             op["git"] = {"rules": rules, "fault": None}
+            if config == "git" and rng.random() < 0.25:
+                # the repository is located through the environment (what a hook or a detached work tree looks like)
+                op["git"]["needs_env"] = {"GIT_DIR": "/nonexistent/nsim.git", "GIT_WORK_TREE": "."}
             if config == "git128":
                 op["git"]["fault"] = {"call": rng.randrange(0, 4), "kind": "rc128"}
             if config == "gitmissing":
@@ -295,6 +310,8 @@ class C15(Engine):
                 break
             if isinstance(node, dict):
                 sel += M.files_under(rel)
+            elif is_special(node):
+                pass        # exists, is no file and no directory: nothing is selected and nothing is said
             else:
                 base = rel.rsplit("/", 1)[-1]
                 if is_c(base):
@@ -420,6 +437,10 @@ class C15(Engine):
         self.count("configs", cfg)
         if any(s is not None for s in sc["ops"][0].get("glob_perms") or []):
             self.fire("listing_perm")
+        if (sc["ops"][0].get("git") or {}).get("needs_env"):
+            self.fire("git_located_through_environment")
+        if "->/dev/null" in json.dumps(sc.get("tree")):
+            self.fire("device_link_named_like_a_source")
         if m["gitignore"]:
             self.fire("gitignore")
         if cfg == "git128":
